@@ -19,7 +19,11 @@
 (* K*/S* actions of ConnStream, taken only when the NEXT event can need    *)
 (* them (the guards below keep TLC's search small; each is a step that     *)
 (* commutes with every event it is delayed past).  Reads are inferred      *)
-(* minimally: just enough bytes to complete the line that was observed.    *)
+(* minimally: just enough bytes to complete the next line that was seen.   *)
+(* An event that announces a call is logged before the call, so the model  *)
+(* lets its effect start at the log point (never later than reality); an   *)
+(* observation is logged after the fact, so the fact is a silent step at   *)
+(* or before the log point.                                                *)
 (* A trace is accepted iff some interleaving of silent steps consumes all  *)
 (* its events: TEnd prints ACCEPT; per-trace high-water marks (TLCSet      *)
 (* registers, -workers 1) tell which event could not be explained.         *)
@@ -30,29 +34,64 @@ CONSTANT TraceFile
 Trace == ndJsonDeserialize(TraceFile)
 
 VARIABLES l,   \* index of the next event to explain
-          tr   \* id of the trace being validated
+          tr   \* index of the "reset" record of the trace being validated
 tvars == <<vars, l, tr>>
 
 N == Len(Trace)
 Starts == {i \in 1..N : Trace[i].ev = "reset"}
 CfgOf(r) == [kind |-> r.kind, oneShot |-> r.oneshot, lossy |-> r.lossy, nw |-> r.nw]
+Id == Trace[tr].id
 
 TInit == \E i \in Starts : /\ InitWith(CfgOf(Trace[i]))
-                           /\ l = i + 1 /\ tr = Trace[i].id
+                           /\ l = i + 1 /\ tr = i
                            /\ TLCSet(Trace[i].id, i + 1)
 
 Ev     == Trace[l]
 NextEv == IF l <= N THEN Trace[l].ev ELSE "eof"
 Is(e)  == NextEv = e
 Consume == /\ l' = l + 1 /\ tr' = tr
-           /\ TLCSet(tr, IF TLCGet(tr) < l + 1 THEN l + 1 ELSE TLCGet(tr))
+           /\ TLCSet(Id, IF TLCGet(Id) < l + 1 THEN l + 1 ELSE TLCGet(Id))
 Silent  == l' = l /\ tr' = tr
 
-\* the next event can only be explained after goroutines of the stream have wound down
-Winding == NextEv \in {"chanclosed", "wgdone", "stall", "panic", "openfail", "writefail"}
-FirstOwner == IF Ev.b = <<>> THEN 0 ELSE Owner(Ev.b[1])
-\* for a stream socket only the connection that owns the observed line matters
-ForLine(c) == Is("line") /\ (Sock /\ Ev.b # <<>> /\ ~MUT_SharedReader => c = FirstOwner)
+(* The consumer logs "line" AFTER it received the line, so the send itself happened at some earlier  *)
+(* point: sends are silent steps.  The reset record carries, as a prophecy, all the lines this trace *)
+(* observed in order (`lines`); a silent send must produce exactly the next one, and the k-th "line" *)
+(* event then only asserts that the k-th send has happened.                                          *)
+AllLines == Trace[tr].lines
+NSent    == Len(out)
+NextText == AllLines[NSent + 1]
+Mine(c, t) == IF ~Sock \/ MUT_SharedReader \/ t = <<>> THEN TRUE ELSE Owner(t[1]) = c   \* (IF: actions explore both disjuncts)
+LastOwned(c) == LET js == {j \in 1..Len(AllLines) : Mine(c, AllLines[j])} IN
+                IF js = {} THEN 0 ELSE CHOOSE j \in js : \A j2 \in js : j2 <= j
+\* events that can only be explained after the whole stream has wound down / by trying everything
+Terminal  == NextEv \in {"chanclosed", "wgdone", "stall", "panic"}
+AllSilent == NextEv \in {"stall", "panic"}
+\* sends up to this ordinal may be needed before the next event can be explained: the observed line itself;
+\* everything, before the stream winds down; and everything before an event after which a silent step would
+\* behave differently (a datagram reader treats a zero-length datagram differently once cancelled; a pipe's
+\* reader cannot see EOF any more once another writer has opened it)
+Target == IF Is("line") THEN Ev.k
+          ELSE IF Terminal THEN Len(AllLines)
+          ELSE IF Is("writefail") \/ (Is("openfail") /\ ~Sock)
+               THEN (IF Sock THEN LastOwned(Ev.w) ELSE Len(AllLines))
+          ELSE IF (Dgram /\ Is("cancel")) \/ (Fifo /\ Is("opened")) THEN Len(AllLines)
+          ELSE 0
+MaySend     == NSent < Target /\ NSent < Len(AllLines)
+SendTurn(c) == MaySend /\ Mine(c, NextText)
+\* the next event's precondition depends on handler c having progressed (EOF / timeout / close / exit)
+NeedHandler(c) == \/ SendTurn(c)
+                  \/ (Is("writefail") /\ (~Sock \/ c = Ev.w))    \* EPIPE/ECONNRESET: that read side is gone
+                  \/ (Is("openfail") /\ ~Sock)                   \* ENXIO: the pipe's reader is gone
+                  \/ (Is("opened") /\ Fifo)                      \* EOF may have been seen just before this open
+                  \/ Terminal
+\* ... on the closer goroutine having closed the listener / the channel
+NeedCloser == Terminal \/ (Sock /\ (Is("openfail") \/ (Is("writefail") /\ h[Ev.w].pc = "none")))
+\* ... on connection w having been accepted
+\*     (closing the listener discards the backlog, so whatever may close it may be preceded by accepts)
+NeedConn(w) == Sock /\ (SendTurn(w) \/ (MaySend /\ cfg.oneShot) \/ AllSilent \/ NeedCloser)
+\* steps local to one handler commute with the local steps of every other handler: lowest handler first
+LocalPossible(c) == CanDeadline(c) \/ CanEof(c) \/ CanTimeout(c) \/ h[c].pc = "fin" \/ (Sock /\ CanExit(c))
+MyTurn(c) == SendTurn(c) \/ \A c2 \in Chans : c2 < c => ~(NeedHandler(c2) /\ LocalPossible(c2))
 
 (* environment events *)
 TOpen      == Is("open") /\ EOpen(Ev.w) /\ Consume
@@ -64,19 +103,18 @@ TWriteFail == Is("writefail") /\ EWriteFail(Ev.w) /\ Consume
 TClose     == Is("close") /\ EClose(Ev.w) /\ Consume
 TCancel    == Is("cancel") /\ ECancel /\ Consume
 
-(* observable steps of the stream *)
-TLine == /\ Is("line")
-         /\ \E c \in Chans : SSend(c) \/ \E key \in Keys : SFinishSend(c, key)
-         /\ out'[Len(out')].line = Ev.b
-         /\ ~panic'
-         /\ Consume
-TChanClosed == /\ Is("chanclosed")
+(* observations of the stream *)
+\* the k-th line was received (and sent before that)
+TLine == /\ Is("line") /\ NSent >= Ev.k /\ out[Ev.k].line = Ev.b
+         /\ UNCHANGED vars /\ Consume
+TChanClosed == /\ Is("chanclosed") /\ NSent = Len(AllLines)
                /\ SCloseChan \/ (~Sock /\ SExit(0))
                /\ Consume
 \* wg.Wait() returned: the goroutines registered with the caller's WaitGroup have exited
 TWgDone == /\ Is("wgdone")
            /\ IF Sock THEN acc.pc = "done" /\ closer = "done" ELSE h[0].pc = "done"
            /\ UNCHANGED vars /\ Consume
+\* the process died with "send on closed channel" inside this stream
 TPanic == /\ Is("panic") /\ chanClosed
           /\ \E c \in Chans : SSend(c) \/ \E key \in Keys : SFinishSend(c, key)
           /\ Consume
@@ -87,27 +125,36 @@ TStall == /\ Is("stall")
           /\ Ev.what = "closed" => ~chanClosed
           /\ UNCHANGED vars /\ Consume
 TEnd == /\ Is("end") /\ UNCHANGED vars /\ Consume
-        /\ PrintT(<<"CASE", ToJson([accept |-> tr])>>)
+        /\ PrintT(<<"CASE", ToJson([accept |-> Id])>>)
 
 (* silent steps, enabled only when the next event can need them *)
 TSilent ==
   /\ Silent
-  /\ \/ \E w \in Writers : KOpenLand(w) /\ ((Is("opened") /\ Ev.w = w) \/ Winding)
-     \/ \E w \in Writers : KLand(w) /\ ((Is("written") /\ (Ev.w = w \/ ~Sock)) \/ ForLine(w) \/ Is("stall"))
+  /\ \/ \E w \in Writers : KOpenLand(w) /\ (\/ (Is("opened") /\ Ev.w = w)
+                                             \/ (Sock /\ NeedCloser)        \* before the listener is closed
+                                             \/ (Fifo /\ NeedHandler(0))    \* before the reader closes its end
+                                             \/ AllSilent)
+     \/ \E w \in Writers : KLand(w) /\ ((Is("written") /\ (Ev.w = w \/ ~Sock)) \/ SendTurn(Chan(w)) \/ AllSilent)
      \/ \E w \in Writers : KDrop(w) /\ Is("written") /\ Ev.w = w
-     \/ \E w \in Writers : SAccept(w) /\ (ForLine(w) \/ (Is("line") /\ cfg.oneShot) \/ Winding)
-     \/ SAdd /\ (Is("line") \/ Winding)
-     \/ (SAcceptFail \/ SCloserStart \/ SCloserListener \/ SCloserWait) /\ Winding
-     \/ (SReadDgram \/ SReadZeroDgram) /\ (Is("line") \/ Winding)
+     \/ \E w \in Writers : SAccept(w) /\ NeedConn(w)
+     \/ SAdd /\ NeedConn(acc.cur)
+     \/ (SAcceptFail \/ SCloserStart \/ SCloserListener \/ SCloserWait) /\ NeedCloser
+     \/ SReadDgram /\ (MaySend \/ AllSilent)        \* every datagram read ends up in some later line
+     \/ SReadZeroDgram /\ (MaySend \/ Terminal \/ Is("cancel"))
      \/ \E c \in Chans :
-          \/ (SDeadline(c) \/ SReadEof(c) \/ SReadTimeout(c) \/ SCloseFd(c)) /\ (ForLine(c) \/ Winding)
+          \/ (SDeadline(c) \/ SReadEof(c) \/ SReadTimeout(c) \/ SCloseFd(c)) /\ NeedHandler(c) /\ MyTurn(c)
           \/ SSendNone(c)
-          \/ SExit(c) /\ Sock /\ Winding
+          \/ SExit(c) /\ Sock /\ NeedHandler(c) /\ MyTurn(c)
+          \* the next line of the trace is sent (a complete line, or the remainder at Finish)
+          \/ /\ SendTurn(c) /\ ~chanClosed
+             /\ SSend(c) \/ \E key \in Keys : SFinishSend(c, key)
+             /\ out'[Len(out')].line = NextText
+          \* reads are inferred minimally: exactly the bytes that complete the next line of the trace
           \/ \E k \in 1..Len(q[c]) :
                /\ SRead(c, k)
-               /\ \/ Is("stall") /\ k = Len(q[c])
-                  \/ /\ ForLine(c)
-                     /\ LET nb == buf[h[c].key] \o SubSeq(q[c], 1, k) IN nb = Ev.b \/ nb = Ev.b \o <<LF>>
+               /\ \/ AllSilent /\ k = Len(q[c])
+                  \/ /\ SendTurn(c)
+                     /\ LET nb == buf[h[c].key] \o SubSeq(q[c], 1, k) IN nb = NextText \/ nb = NextText \o <<LF>>
 
 TNext == TOpen \/ TOpened \/ TOpenFail \/ TWrite \/ TWritten \/ TWriteFail \/ TClose \/ TCancel
          \/ TLine \/ TChanClosed \/ TWgDone \/ TPanic \/ TStall \/ TEnd \/ TSilent
